@@ -214,14 +214,8 @@ class Primitive(Trimesh):
         # the objects we handle re-scaling for
         # note that `Extrusion` is NOT supported
         kinds = (Box, Cylinder, Capsule, Sphere)
-        if isinstance(self, kinds) and abs(scale - 1.0) > 1e-8:
-            # scale the primitive attributes
-            if hasattr(prim, "height"):
-                prim.height *= scale
-            if hasattr(prim, "radius"):
-                prim.radius *= scale
-            if hasattr(prim, "extents"):
-                prim.extents *= scale
+        rescale = isinstance(self, kinds) and abs(scale - 1.0) > 1e-8
+        if rescale:
             # scale the translation of the current matrix
             current[:3, 3] *= scale
             # apply new matrix, rescale, translate, current
@@ -230,9 +224,19 @@ class Primitive(Trimesh):
             # without scaling just multiply
             updated = np.dot(matrix, current)
 
-        # make sure matrix is a rigid transform
+        # make sure matrix is a rigid transform before anything
+        # is changed: a refused matrix leaves the primitive as it was
         if not tf.is_rigid(updated):
             raise ValueError("Couldn't produce rigid transform!")
+
+        if rescale:
+            # scale the primitive attributes
+            if hasattr(prim, "height"):
+                prim.height *= scale
+            if hasattr(prim, "radius"):
+                prim.radius *= scale
+            if hasattr(prim, "extents"):
+                prim.extents *= scale
 
         # apply the new matrix
         self.primitive.transform = updated
